@@ -3,7 +3,11 @@
 package peerstream
 
 import (
+	"context"
+	"strings"
 	"time"
+
+	"github.com/hashicorp/go-hclog"
 
 	"github.com/hashicorp/consul/agent/cache"
 	"github.com/hashicorp/consul/agent/structs"
@@ -42,4 +46,34 @@ func (s *Server) VerifProcessResponse(peerName, partition string, resp *pbpeerst
 	imported := append([]string{}, mst.ImportedServices...)
 	mst.mu.RUnlock()
 	return reply, imported, err
+}
+
+// VerifExporter runs the exporting side's real subscription manager for one peer: the returned channel carries
+// what would be sent to that peer (exported-service-list, exported-service:<name>, ...).
+func VerifExporter(ctx context.Context, backend SubscriptionBackend, getStore func() StateStore, datacenter, peerID, peerName string) <-chan cache.UpdateEvent {
+	tracker := newResourceSubscriptionTracker()
+	tracker.Subscribe(pbpeerstream.TypeURLExportedService)
+	tracker.Subscribe(pbpeerstream.TypeURLExportedServiceList)
+	mgr := newSubscriptionManager(ctx, hclog.NewNullLogger(), Config{Datacenter: datacenter, ConnectEnabled: false}, "11111111-2222-3333-4444-555555555555.consul", backend, getStore, tracker)
+	return mgr.subscribe(ctx, peerID, peerName, "default")
+}
+
+// VerifExportedServiceName extracts <name> from the correlation id of an exported-service update ("" otherwise).
+func VerifExportedServiceName(correlationID string) string {
+	if strings.HasPrefix(correlationID, subExportedService) {
+		return strings.TrimPrefix(correlationID, subExportedService)
+	}
+	return ""
+}
+
+// VerifIsExportedList reports whether the update is the exported-service-list, and returns the names.
+func VerifIsExportedList(u cache.UpdateEvent) ([]string, bool) {
+	if u.CorrelationID != subExportedServiceList {
+		return nil, false
+	}
+	l, ok := u.Result.(*pbpeerstream.ExportedServiceList)
+	if !ok {
+		return nil, true
+	}
+	return l.Services, true
 }
